@@ -154,7 +154,23 @@ def formats(F, rep):
                        key="R4:format_gbp:precision")
                 hb = F.bodies[t["callee"]]
                 txts = sorted(template_text(fc["parts"]) or "" for fc in format_calls(F, hb))
-                neg = any(x.startswith("-{}") for x in txts)
+                # every string the helper can return (symbolic string synthesis): on the is_sign_negative edge it starts with
+                # "-" followed by the symbol, on the other edge it does not start with "-"
+                from strsyn import StrSyn, NotSynthesisable
+                neg = False
+                try:
+                    negs, poss = [], []
+                    for a in StrSyn(F).returns(hb):
+                        if a["parts"] is None:
+                            continue
+                        txt = "".join(p[1] if p[0] == "lit" else "{}" for p in a["parts"])
+                        g = [(c_, v) for c_, v in a["guards"] if isinstance(c_, tuple) and c_ and c_[0] == "call" and parse_callee(c_[1])[2] == "is_sign_negative"]
+                        if g:
+                            (negs if g[-1][1] != "0" else poss).append(txt)
+                    neg = bool(negs) and all(x.startswith("-{}") for x in negs) and bool(poss) and not any(x.startswith("-") for x in poss)
+                    txts = sorted(set(negs)) + sorted(set(poss))
+                except NotSynthesisable:
+                    neg = any(x.startswith("-{}") for x in txts)
                 rep.ob("R4", "format_gbp:negative", neg, "negative amounts print as -£…" if neg else f"templates {txts} have no leading minus form",
                        hb.loc(), key="R4:format_gbp:negative")
                 seps = any(c in F.bodies and any((op_const(a) or {}).get("int") == "44" for _, u in F.bodies[c].calls() for a in u["args"])
